@@ -71,7 +71,7 @@ var scalarKinds = []string{"bool", "int", "int8", "int16", "int32", "int64", "ui
 var pointerKinds = []string{"ptrInt", "nilPtrInt", "ptrStr", "nilMap", "nilSlice", "nilChan", "nilFunc", "ptrptr", "parr", "iarr", "sarr", "SArr", "SNils", "NFunc"}
 var addrKinds = []string{"chan", "func", "uptr", "NChan"}
 var methodKinds = []string{"Stringer", "PStringer", "NilPStringer", "PStringerVal", "Err", "StdErr", "WrapErr", "PErr", "NilPErr", "ErrStringer",
-	"GoStringer", "GoStrStringer", "Fmter", "ErrFmter", "FmtFlags"}
+	"GoStringer", "GoStrStringer", "Fmter", "PadFmter", "ErrFmter", "FmtFlags"}
 var panicKinds = []string{"PanicStringer", "PanicErr", "PanicGoStr", "PanicFmter"}
 var safeKinds = []string{"SVInt", "SVStr", "SVFloat", "SVBytes", "SVStringer", "ISafeString", "ISafeInt", "ISafeUint", "ISafeFloat", "ISafeRune", "ISafeByte", "ISafeBytes",
 	"RegInt", "RegStr", "RegDur"}
@@ -119,7 +119,7 @@ func leafOfKind(r *Rng, k string, o genOpts) *D {
 		d.S = QS(randPayload(r, o))
 		d.N = randInt(r)
 	case "string", "NStr", "bytes", "NBytes", "barr", "barr8", "nbarr", "nbslice", "SNArr", "ptrStr", "parr", "sarr", "Stringer", "PStringer", "PStringerVal", "Err", "StdErr", "WrapErr", "PErr", "ErrStringer",
-		"GoStringer", "GoStrStringer", "Fmter", "ErrFmter", "SVStr", "SVBytes", "SVStringer", "ISafeString", "ISafeBytes", "RegStr", "SafeMsg":
+		"GoStringer", "GoStrStringer", "Fmter", "PadFmter", "ErrFmter", "SVStr", "SVBytes", "SVStringer", "ISafeString", "ISafeBytes", "RegStr", "SafeMsg":
 		d.S = QS(randPayload(r, o))
 		if k == "bytes" && r.Chance(1, 15) {
 			d.N = -1 // nil slice
@@ -130,7 +130,7 @@ func leafOfKind(r *Rng, k string, o genOpts) *D {
 		d.N = int64(r.Intn(2))
 	case "PanicStringer", "PanicErr", "PanicGoStr", "PanicFmter":
 		d.S = QS(randPayload(r, o))
-		d.N = int64(r.Intn(8)) // payload modes 0-7 (see panicSpec.fire)
+		d.N = int64(r.Intn(9)) // payload modes 0-8 (see panicSpec.fire)
 		if d.N == 5 {
 			d.N += 10 * int64(r.Intn(2))
 		}
@@ -468,7 +468,7 @@ func randStep(r *Rng, depth int, o genOpts) *D {
 		var f strings.Builder
 		for i, n := 0, r.Intn(3); i < n; i++ {
 			f.WriteString(randLit(r, o))
-			f.WriteString([]string{"%v", "%s", "%d", "%+v", "%q", "%5v", "%x"}[r.Intn(7)])
+			f.WriteString([]string{"%v", "%s", "%d", "%+v", "%q", "%5v", "%x", "%w", "%-7.2v"}[r.Intn(9)])
 			d.Sub = append(d.Sub, randD(r, depth-1, o2))
 		}
 		f.WriteString(randLit(r, o))
@@ -476,7 +476,7 @@ func randStep(r *Rng, depth int, o genOpts) *D {
 		return d
 	default:
 		if o.panics && r.Chance(1, 2) {
-			return &D{K: "sPanic", S: QS(randPayload(r, o)), N: []int64{0, 1, 2, 3, 4, 6, 7}[r.Intn(7)]}
+			return &D{K: "sPanic", S: QS(randPayload(r, o)), N: []int64{0, 1, 2, 3, 4, 6, 7, 8}[r.Intn(8)]}
 		}
 		return &D{K: "sVerb"}
 	}
